@@ -18,7 +18,7 @@ def run(tier, replay=None):
         cases, mism, summ, res = C.emit_and_replay(run, "MC_FixedWindow", cfg, "c07_" + inst, ["fixedwindow"],
                                                    timeout=900, workers=4)
         for m in mism:
-            run.mismatch({"kind": m["mismatch"]["what"], "template": m["template"]}, m)
+            run.mismatch({"kind": m["mismatch"]["what"], "template": m.get("template", m.get("case"))}, m)
         total += len(cases)
         runs += summ.get("runs", 0)
         # non-trivial: the initial directory has a gap or a neighbour outside the window
